@@ -10,7 +10,8 @@ import (
 
 var loadFragments = []string{"title: A\n", "title:", "---\n", "===\n", "-> ", "<<", ">>", "<<if ", "<<elseif ", "<<else>>", "<<endif>>", "<<set $x = ", "<<jump ", "<<call f(",
 	"<<declare $y = ", "{", "}", "$x", "1", "2.5", "\"s\"", " + ", " == ", "(", ")", ",", "#tag", "// c\n", "\n", "\n    ", "\n\t", "\n \t", "\\", "\\[", "[b]", "[/b]", "text ", "x", "é",
-	"\r\n", "\r", "true", "null", "not ", "-", " and ", "stop", "wait 1", "\x00", "\xff", "\xc3", "===", "---", ": ", "tracking: never\n"}
+	"\r\n", "\r", "true", "null", "not ", "-", " and ", "stop", "wait 1", "\x00", "\xff", "\xc3", "===", "---", ": ", "tracking: never\n",
+	";", "@", "?", "%", "$ ", "^", "~", "`", "|", "&"}
 
 func validScript(r *prng.R) string {
 	g := &G{R: r, P: Profiles["flow"]}
